@@ -152,6 +152,7 @@ pub fn dump<'tcx>(tcx: TyCtxt<'tcx>, out: &mut String) {
                     "variants": J::Arr(variants),
                     "attrs": J::Arr(at), "doc": J::s(doc),
                     "file": J::s(file), "line": J::Int(line),
+                    "ident_line": J::Int(tcx.def_ident_span(did).map(|s| loc(tcx, s).1).unwrap_or(line)),
                 }
                 .line(out);
             }
@@ -176,11 +177,16 @@ pub fn dump<'tcx>(tcx: TyCtxt<'tcx>, out: &mut String) {
             }
             DefKind::Impl { of_trait } => {
                 let self_ty = tcx.type_of(did).instantiate_identity().skip_normalization();
-                let (tr, tr_args) = if of_trait {
+                let (tr, tr_args, tr_crate, tr_name) = if of_trait {
                     let tr = tcx.impl_trait_ref(did).instantiate_identity().skip_normalization();
-                    (J::s(path(tcx, tr.def_id)), J::s(tr.to_string()))
+                    (
+                        J::s(path(tcx, tr.def_id)),
+                        J::s(tr.to_string()),
+                        J::s(tcx.crate_name(tr.def_id.krate).to_string()),
+                        J::s(tcx.item_name(tr.def_id).to_string()),
+                    )
                 } else {
-                    (J::Null, J::Null)
+                    (J::Null, J::Null, J::Null, J::Null)
                 };
                 let mut its = Vec::new();
                 for it in tcx.associated_items(did).in_definition_order() {
@@ -200,7 +206,7 @@ pub fn dump<'tcx>(tcx: TyCtxt<'tcx>, out: &mut String) {
                 let (at, _) = attrs(tcx, did);
                 obj! {
                     "k": J::s("impl"), "path": J::s(path(tcx, did)),
-                    "trait": tr, "trait_ref": tr_args,
+                    "trait": tr, "trait_ref": tr_args, "trait_crate": tr_crate, "trait_name": tr_name,
                     "self_ty": J::s(self_ty.to_string()),
                     "self_tyj": crate::mir_dump::ty_json(tcx, self_ty),
                     "derived": J::Bool(tcx.is_automatically_derived(did)),
